@@ -43,7 +43,7 @@ from pathlib import Path
 CID = "C03b"
 WORK = V.BUILD / "work"
 EMPH = [0, 1, 2, 7, 8, 31, 32, 33, 63, 64, 65]
-GROW_EXCLUDES = "bi"     # slice forms kept out of request sequences in which the object grows (set to "" once m_bitAlias / m_dynamicBitAlias follow a width change)
+GROW_EXCLUDES = ""       # slice forms kept out of request sequences in which the object grows (was "bi" until repair 14e4999: m_bitAlias / m_dynamicBitAlias now follow a width change)
 OCT_MAX_DIGITS = 10**9   # (octal literals longer than 21 digits used to assert in parseBitVector; repaired, regressions in corpus/C03b)
 
 # ----------------------------------------------------------------------------
